@@ -78,9 +78,9 @@ Definition gff_classify (prs : list N -> option N) (line : list N) : gline :=
   | KRecord => GRecord (gff_parse_line prs line)
   end.
 
-(* the owned LineBuf of line_bufs(): a directive keeps key and text value; a COMMENT is built
-   from the whole line (`self.line.as_ref().into()`, the '#' included); a record goes through
-   RecordBuf::try_from_feature_record *)
+(* the owned LineBuf of line_bufs(): a directive keeps key and text value; a comment is built
+   from Line::as_comment (the text after the '#'; repaired in /repo 0b526eb -- before, it was the
+   whole line, '#' included); a record goes through RecordBuf::try_from_feature_record *)
 Inductive gline_buf :=
   | BDirective (key : list N) (value : option (list N))
   | BComment (s : list N)
@@ -89,7 +89,7 @@ Inductive gline_buf :=
 Definition gff_line_buf (prs : list N -> option N) (line : list N) : gline_buf :=
   match gff_line_kind line with
   | KDirective => let '(k, v) := dir_split (skipn 2 line) in BDirective k v
-  | KComment => BComment line
+  | KComment => BComment (skipn 1 line)
   | KRecord =>
       BRecord (match gff_parse_line prs line with
                | Rec l => owned_of_lazy l
